@@ -97,6 +97,8 @@ func runC17(c *Ctx) {
 	r.Rule("R17-slots", "slots are accessed only through sync/atomic; the slot array and mask are written only in the constructor; the index is hash & mask with mask = n-1 and n a power of two", 3)
 	r.Rule("R17-replace", "in Write the entry whose replacement value is compared is the same pointer that is the 'old' operand of the compare-and-swap, on every iteration, and a failed swap reloads before re-testing", 1)
 	r.Rule("R17-used", "every field of the table written after construction is accessed only atomically (and, for raw 64-bit atomics, is 64-bit aligned on this build configuration); the fill counter is incremented only when the swap won an empty slot", 2)
+	r.Rule("R17-range", "ply and depth are narrowed into the entry only under range tests, and the replacement value is computed in a type wide enough for its operands", 2)
+	c.guard("R17-range", func() { c17Range(c, "R17-range") })
 	r.Rule("R17-wrappers", "WriteLimited and NoTranspositionTable carry no mutable state", 1)
 
 	tableT := c.namedType("pkg/search", "table")
